@@ -104,7 +104,16 @@ def run(tier, selftest):
         _, b = mergecheck.random_pair(rng, rng.choice([30, 60, 120, 240] if thorough else [20, 40]))
         rand_cases.append({"id": {"fam": "random", "n": i}, "G": mergecheck.to_abstract(b)})
     two = two_module_cases(cases, 1 if thorough else 7)
-    allc = cases + rand_cases + two
+    # USER_RIGHTS with several REF_GROUP blocks (the block is repeatable): a group named by a later block is in use as well
+    split = []
+    for nblocks in (2, 3):
+        names = [f"gk{j}" for j in range(nblocks)]
+        G = [{"kind": "USER_RIGHTS", "name": "user0", "c": 41, "refs": [["USER_RIGHTS/REF_GROUP.identifier_list", names]], "opts": {"split_ref_group": True}, "criteria": []}]
+        G += [{"kind": "GROUP", "name": x, "c": 20 + j, "refs": [], "criteria": []} for j, x in enumerate(names)]
+        G += [{"kind": "GROUP", "name": "parent_of_last", "c": 30, "refs": [["GROUP/SUB_GROUP.identifier_list", [names[-1]]]], "criteria": []},
+              {"kind": "CHARACTERISTIC", "name": "c0", "c": 60, "refs": [], "criteria": []}]
+        split.append({"id": {"fam": "split_ref_group", "blocks": nblocks}, "G": G})
+    allc = cases + rand_cases + two + split
     mo = []
     for i, c in enumerate(allc):
         g = graphlib.abstract_to_graph(c["G"])
